@@ -1,4 +1,5 @@
 import EmmetProofs.TextVerbatim
+import EmmetProofs.TextLex
 /-! # C04 — text is data (token level) -/
 namespace EmmetProps
 open T
@@ -11,5 +12,20 @@ theorem C04_text_tokens (ts : List Tok) (st : CState) (tx : List Str) (h : texts
 
 /-- non-vacuity: the tokens of `a>b` inside text -/
 example : texts [⟨.literal [97], 0, 1⟩, ⟨.operator .child, 1, 2⟩, ⟨.literal [98], 2, 3⟩] = some [[97], [62], [98]] := by decide
+
+/-- Lexing of text, for ANY payload of the text grammar `Txt` (ordinary characters — operators, brackets, quotes, `*`, `#` … all
+included —, `\c` escapes, balanced inner braces; everything but an unescaped `$`) that does not begin with white space: right after
+the opening brace, one iteration of the tokenizer's main loop consumes exactly the payload, stops at the closing brace and yields
+ONE literal token whose value is the payload character for character, with each `\c` read as `c` and the inner braces kept. -/
+theorem C04_text_lexing {w d : Str} (h : Txt w d) (hne : w ≠ []) (hsp : ∀ c r, w = c :: r → isSpace c = false)
+    (post : Str) (pos : Nat) (prev : Option Ch) (cg ca : Int) :
+    step (w ++ 125 :: post) pos prev (tctx cg ca 1) = .ok (some (⟨.literal d, w, 125 :: post⟩, tctx cg ca 1)) :=
+  T.step_text h hne hsp post pos prev cg ca
+
+/-- non-vacuity: the payload `*>{x}\}` denotes `*>{x}}` -/
+example : Txt [42, 62, 123, 120, 125, 92, 125] [42, 62, 123, 120, 125, 125] :=
+  .chr 42 _ _ (by decide) (by decide) (by decide) (by decide)
+    (.chr 62 _ _ (by decide) (by decide) (by decide) (by decide)
+      (.nest [120] [120] [92, 125] [125] (.chr 120 [] [] (by decide) (by decide) (by decide) (by decide) .nil) (.esc 125 [] [] .nil)))
 
 end EmmetProps
